@@ -87,7 +87,8 @@ class AdvancedHTMLParser(HTMLParser):
 
                 @return <dict>
         '''
-        state = self.__dict__
+        # Work on a copy, the live __dict__ must keep its "reset" hook
+        state = self.__dict__.copy()
 
         # Python2 compat
         del state['reset']
